@@ -251,6 +251,9 @@ def gen_exhaustive(tier, seed):
 
 def suites(tier, seed):
     return [
+        Suite("handles-submit-whole-frames", "api", lambda: [c for c in __import__("props.c02", fromlist=["x"]).sweep(tier, seed) if c.cid.startswith("s-max") or int(c.cid[1:]) % 3 == 0],
+              monitor=__import__("props.c02", fromlist=["x"]).monitor, nontrivial=lambda c, il: True, canon=__import__("apigen").canon,
+              rule="assumption A2 checked: whatever a channel handle puts into its queue towards the I/O thread is a whole frame (publishes with bodies of 0 ... 300 000 bytes at frame_max 4096 ... 2^32-1 through the public API; each queue entry decoded strictly) - frames of different channels can then interleave only at frame boundaries"),
         Suite("wire-e2e", "bp", lambda: __import__("props.c18", fromlist=["x"]).wire_cases(tier), monitor=__import__("props.c18", fromlist=["x"]).e2e_monitor, nontrivial=lambda c, il: True, compare=False, shards=4, timeout=300,
               rule="real connection + I/O thread over the mock transport, publisher threads: 1.5 MiB and 6 MiB queued during a stall and then taken by the transport in partial writes of 256 KiB; a write call failing with EINTR after partial writes: every message on the wire once, intact, in order, whole frames (after a transport failure: a clean prefix)"),
         Suite("wire-random", "machine", lambda: gen_random(tier, seed), monitor=monitor, nontrivial=nontrivial, canon=mg.canon_nondet, candidate_ok=mg.candidate_ok,
